@@ -170,6 +170,13 @@ func (m *Machine) intrinsic(fn *ssa.Function, args []Val, caller *frame) handler
 			m.replayEnd = len(m.draws)
 			return nil
 		}
+	case "vDrawLimit":
+		// more bounded draws than n from now on is reported as a failed assertion
+		return func() Val {
+			m.drawLimit = len(m.draws) + argInt(args[0])
+			m.drawLimitMsg = argStr(args[1])
+			return nil
+		}
 	case "vDrawCount":
 		return func() Val { return bv64(len(m.draws)) }
 	case "vDraw":
